@@ -3,7 +3,7 @@
    seedtest.py run <name> [tier]        — apply /verif/seeded/<name>/patch.diff to /repo, run the property's check, undo, record result"""
 import sys, os, json, subprocess, shutil, time
 
-VERIF = '/verif'
+VERIF = os.environ.get('VERIF_ROOT') or os.path.dirname(os.path.dirname(os.path.abspath(__file__)))
 REPO = '/repo'
 WT = '/tmp/seed/verify'
 
